@@ -28,3 +28,40 @@ for meth, field in [("Remove","Normal"),("RemoveErrorWriter","Error")]:
             f"//@   loop 1 invariant [C03.scan] rangeindex >= -1 && (rangeindex < len({L}) || rangeindex == -1) && unchanged({L}) && forall(j, 0, rangeindex+1, !specDenotes({L}[j], w))",
             "//@"]
 print("\n".join(out))
+
+# --- leveled writers, resets, and the Entry wrappers (appended)
+out=[]
+L="s.leveled"
+same_others = "forall(k, implies(k != lvl, has(s.leveled, Level(k)) == old(has(s.leveled, Level(k))) && s.leveled[Level(k)] == old(s.leveled[Level(k)])))"
+out += ["//@ func (*dualWriter).AddLevelWriter", "//@   props C03", "//@   requires s != nil",
+        "//@   assigns s.leveled, mapof(s.leveled), s.leveled[lvl][:]",
+        "//@   ensures [C03.addlevel-nil] implies(isnil(w), unchanged(s.leveled))",
+        "//@   ensures [C03.addlevel] implies(!isnil(w), s.leveled != nil && has(s.leveled, lvl) && len(s.leveled[lvl]) == old(len(s.leveled[lvl])) + 1 && specWrapped(s.leveled[lvl][len(s.leveled[lvl])-1], w) && forall(j, 0, old(len(s.leveled[lvl])), s.leveled[lvl][j] == old(s.leveled[lvl][j])))",
+        "//@   ensures [C03.addlevel-others] implies(!isnil(w), " + same_others + ")", "//@"]
+out += ["//@ func (*dualWriter).ResetLevelWriter", "//@   props C03", "//@   requires s != nil",
+        "//@   assigns mapof(s.leveled)",
+        "//@   ensures [C03.resetlevel] !has(s.leveled, lvl) && " + same_others, "//@"]
+out += ["//@ func (*dualWriter).ResetLevelWriters", "//@   props C03", "//@   requires s != nil", "//@   assigns s.leveled",
+        "//@   ensures [C03.resetlevels] s.leveled == nil", "//@"]
+out += ["//@ func (*dualWriter).Clear", "//@   props C03", "//@   requires s != nil", "//@   assigns s.Normal, s.Error",
+        "//@   ensures [C03.clear] len(s.Normal) == 0 && len(s.Error) == 0", "//@"]
+out += ["//@ func (*dualWriter).Reset", "//@   props C03", "//@   requires s != nil", "//@   assigns s.Normal, s.Error, s.leveled",
+        "//@   ensures [C03.reset] result == s && s.leveled == nil && len(s.Normal) == 1 && len(s.Error) == 1",
+        "//@   ensures [C03.reset-std] typeis(s.Normal[0], *filewr) && dyn(s.Normal[0], *filewr) != nil && dyn(s.Normal[0], *filewr).File == os.Stdout && typeis(s.Error[0], *filewr) && dyn(s.Error[0], *filewr) != nil && dyn(s.Error[0], *filewr).File == os.Stderr", "//@"]
+out += ["//@ func newDualWriter", "//@   props C03",
+        "//@   ensures [C03.new] result != nil && fresh(result) && result.leveled == nil && len(result.Normal) == 1 && len(result.Error) == 1",
+        "//@   ensures [C03.new-std] typeis(result.Normal[0], *filewr) && dyn(result.Normal[0], *filewr).File == os.Stdout && typeis(result.Error[0], *filewr) && dyn(result.Error[0], *filewr).File == os.Stderr", "//@"]
+# Entry wrappers: forward to the logger's own writer set (created on demand), same argument, return the receiver
+for ent, dw, args in [("SetWriter","SetWriter","callee.w == wr"),("AddWriter","Add","callee.w == wr"),("SetErrorWriter","SetErrorWriter","callee.w == wr"),
+                      ("AddErrorWriter","AddErrorWriter","callee.w == wr"),("AddLevelWriter","AddLevelWriter","callee.w == w && callee.lvl == lvl"),
+                      ("RemoveLevelWriter","RemoveLevelWriter","callee.w == w && callee.lvl == lvl"),("ResetLevelWriter","ResetLevelWriter","callee.lvl == lvl"),
+                      ("ResetLevelWriters","ResetLevelWriters","true"),("ResetWriters","Reset","true")]:
+    out += [f"//@ func (*Entry).{ent}", "//@   props C03 C10", "//@   requires s != nil", "//@   assigns everything", "//@   maypanic",
+            "//@   ensures [C03.C10.ret] result == s && s.writer != nil && (s.writer == old(s.writer) || (old(s.writer) == nil && fresh(s.writer)))",
+            f"//@   at call (*dualWriter).{dw} assert [C03.forward] callee.s == s.writer && {args}", "//@"]
+for ent, dw in [("RemoveWriter","Remove"),("RemoveErrorWriter","RemoveErrorWriter")]:
+    out += [f"//@ func (*Entry).{ent}", "//@   props C03 C10", "//@   requires s != nil", "//@   assigns everything", "//@   maypanic",
+            "//@   ensures [C03.C10.ret] result == s && s.writer == old(s.writer)",
+            "//@   ensures [C03.remove-fresh] implies(old(s.writer) == nil, unchanged(s.writer))",
+            f"//@   at call (*dualWriter).{dw} assert [C03.forward] callee.s == s.writer && callee.w == wr && s.writer != nil", "//@"]
+print("\n".join(out))
